@@ -18,6 +18,7 @@ Definition table_ok (f : fmt) (rows : list row) : Prop :=
   | Delim => rect rows /\ cells_small rows
   | Vcf => rect rows /\ cells_small (map (vcf_shift 1) rows)
   | VcfU => rows = []
+  | VcfL => True
   | Fasta w => 1 <= w /\ Forall (fun r => exists n s, r = [n; s] /\ fld_small n /\ fld_small s /\ print_fld s <> []) rows
   | Fastq => Forall (fun r => exists n s q, r = [n; s; q] /\ fld_small n /\ fld_small s /\ fld_small q) rows
   end.
@@ -49,7 +50,7 @@ Proof. destruct r as [|c [|[s|p|l|q|t a b] rest]]; reflexivity. Qed.
 Theorem from_data_canonical f rows : rows <> [] -> table_ok f rows ->
   from_data f rows = (0, serialise f rows).
 Proof.
-  intros Hne Hok. destruct f as [| | |w|]; cbn [table_ok] in Hok.
+  intros Hne Hok. destruct f as [| | | |w|]; cbn [table_ok] in Hok.
   - (* Delim *) destruct Hok as [Hr Hs]. cbn [from_data]. rewrite delim_canonical by assumption. reflexivity.
   - (* Vcf *) destruct Hok as [[n [Hn Hr]] Hs]. cbn [from_data]. rewrite delim_canonical.
     + unfold serialise. rewrite map_map. reflexivity.
@@ -58,6 +59,7 @@ Proof.
       destruct Hr' as [r [<- Hin]]. rewrite vcf_shift_length. rewrite Forall_forall in Hr. apply Hr, Hin.
     + exact Hs.
   - congruence.
+  - reflexivity.
   - (* Fasta *) destruct Hok as [Hw Hrows]. cbn [from_data].
     rewrite (fasta_from_data_layout w Hw).
     + f_equal. unfold serialise. rewrite map_map. f_equal. apply map_ext_in. intros r Hr.
